@@ -17,6 +17,8 @@
 // counter (HotParamConc with Fresh: Lookup / Create / Record).  Their outcomes are recorded; the entries are
 // either held (they become live entries of the trace, exited later by exit / exitall from the main
 // goroutine) or exited by their own goroutine right away.  The probes that follow judge the quiescent state.
+// Reload (op reload): the rule table is replaced while entries are live (hotspot.LoadRules, LoadRulesOfResource /
+// ClearRulesOfResource, or ClearRules + LoadRules); the entries opened before it are exited afterwards like any other.
 // The recorded trace is validated against spec/HotParamConc_Trace.tla.
 //
 // usage: c06 <scenarios.ndjson> <trace.ndjson>
@@ -106,6 +108,28 @@ func (r *run) close() {
 	if r.sched != nil {
 		r.sched.Close()
 	}
+}
+
+// the hotspot rules of a rule table {resource: {thr, items, idx, key, cap}} (only: restrict to these resources)
+func (r *run) rules(tab interface{}, only map[string]bool) []*hotspot.Rule {
+	rules := []*hotspot.Rule{}
+	rm, _ := tab.(map[string]interface{})
+	names := make([]string, 0, len(rm))
+	for name := range rm {
+		if only == nil || only[name] {
+			names = append(names, name)
+		}
+	}
+	sort.Strings(names)
+	for _, name := range names {
+		x := rm[name].(map[string]interface{})
+		rules = append(rules, &hotspot.Rule{
+			Resource: r.res(name), MetricType: hotspot.Concurrency, ControlBehavior: hotspot.Reject,
+			ParamIndex: int(hx.Int(x, "idx")), ParamKey: hx.Str(x, "key"), Threshold: hx.Int(x, "thr"),
+			ParamsMaxCapacity: hx.Int(x, "cap"), SpecificItems: r.tab.Items(x["items"]),
+		})
+	}
+	return rules
 }
 
 func (r *run) res(name string) string { return fmt.Sprintf("c06_%d_%s", r.tr, name) }
@@ -208,21 +232,7 @@ func main() {
 				e.Exit()
 			}
 			r = &run{tr: hx.Int(s, "tr"), tab: hpx.NewTable(hx.Str(s, "ty")), live: map[int64]*base.SentinelEntry{}, pend: map[int64]*parked{}}
-			rules := []*hotspot.Rule{}
-			rm, _ := s["rules"].(map[string]interface{})
-			names := make([]string, 0, len(rm))
-			for name := range rm {
-				names = append(names, name)
-			}
-			sort.Strings(names)
-			for _, name := range names {
-				x := rm[name].(map[string]interface{})
-				rules = append(rules, &hotspot.Rule{
-					Resource: r.res(name), MetricType: hotspot.Concurrency, ControlBehavior: hotspot.Reject,
-					ParamIndex: int(hx.Int(x, "idx")), ParamKey: hx.Str(x, "key"), Threshold: hx.Int(x, "thr"),
-					ParamsMaxCapacity: hx.Int(x, "cap"), SpecificItems: r.tab.Items(x["items"]),
-				})
-			}
+			rules := r.rules(s["rules"], nil)
 			if _, err := hotspot.LoadRules(rules); err != nil {
 				hx.Fatal("LoadRules: %v", err)
 			}
@@ -312,6 +322,38 @@ func main() {
 				got[i].Exit()
 			}
 			tr.Emit(hx.M{"op": "probe", "res": s["res"], "args": args, "atts": atts, "n": len(got), "tv": tv, "live": r.liveObs()})
+		case "reload":
+			// the rule table is replaced in the middle of the history, entries stay live: the whole table through LoadRules
+			// ("load"), after ClearRules ("clear"), or resource by resource for the resources listed in `only` ("res":
+			// LoadRulesOfResource, ClearRulesOfResource for a resource that has no rule in the new table)
+			rm, _ := s["rules"].(map[string]interface{})
+			var err error
+			switch via := hx.Str(s, "via"); via {
+			case "load":
+				_, err = hotspot.LoadRules(r.rules(rm, nil))
+			case "clear":
+				_ = hotspot.ClearRules()
+				_, err = hotspot.LoadRules(r.rules(rm, nil))
+			case "res":
+				only, _ := s["only"].([]interface{})
+				for _, o := range only {
+					name := o.(string)
+					if _, ruled := rm[name]; ruled {
+						_, err = hotspot.LoadRulesOfResource(r.res(name), r.rules(rm, map[string]bool{name: true}))
+					} else {
+						err = hotspot.ClearRulesOfResource(r.res(name))
+					}
+					if err != nil {
+						break
+					}
+				}
+			default:
+				hx.Fatal("reload via %q", via)
+			}
+			if err != nil {
+				hx.Fatal("reload: %v", err)
+			}
+			tr.Emit(hx.M{"op": "reload", "rules": norm(s, "rules", hx.M{}), "via": s["via"], "n": len(hotspot.GetRules()), "live": r.liveObs()})
 		case "burst":
 			out := r.burst(s)
 			tr.Emit(hx.M{"op": "burst", "res": s["res"], "args": args, "atts": atts, "hold": hx.Int(s, "hold") != 0, "out": out, "live": r.liveObs()})
